@@ -558,6 +558,90 @@ def after_refused_bundle(r):
         roots.close()
 
 
+def journal_and_locks(r):
+    """(a) Crash atomicity at EVERY instant - also in the middle of a commit that has written some pages - rests on SQLite's rollback
+    journal being on disk: the store's connection must not have been switched to a journal that dies with the process (journal_mode
+    MEMORY / OFF).  (b) A database that is merely BUSY (another connection of the account holds it) is not a damaged one: opening the
+    profile's store meanwhile may fail, it must not replace the database - afterwards the identity on file is the one from before.
+    (c) A write whose commit fails because a reader holds the database is REPORTED to the caller: a store call that returns normally has
+    stored (a fresh connection sees the record)."""
+    import sqlite3, threading
+    from harness import e2ekit
+    from yowsup.common.tools import StorageTools
+    from yowsup.axolotl.factory import AxolotlManagerFactory
+    from yowsup.axolotl.store.sqlite.liteaxolotlstore import LiteAxolotlStore
+    from axolotl.util.keyhelper import KeyHelper
+    roots = e2ekit.Roots()
+    try:
+        phone = "4915770006601"
+        prof = e2ekit.make_profile(phone)
+        m = prof.axolotl_manager
+        ident0 = bytes(m.identity.getPublicKey().serialize())
+        conn = m._store.identityKeyStore.dbConn
+        r.case(("journal-mode",))
+        mode = getattr(conn, "_c", conn).execute("PRAGMA journal_mode").fetchone()[0]
+        mode = (mode.decode() if isinstance(mode, bytes) else str(mode)).lower()
+        if mode not in ("delete", "truncate", "persist", "wal"):
+            r.violation("crash:journal-not-on-disk", "the store's connection runs with journal_mode=%s: a process death in the middle of a commit leaves a database that cannot be rolled back" % mode, {"mode": mode})
+        conn.close()
+        db = StorageTools.constructPath(phone, "axolotl.db")
+        # (b) the database is busy while the profile is opened
+        r.case(("busy-database-open",))
+        r.cov["traces_validated_against_impl"] += 1
+        holder = sqlite3.connect(db, timeout=0.1)
+        holder.execute("BEGIN EXCLUSIVE")
+        opened = None
+        try:
+            try:
+                opened = AxolotlManagerFactory().get_manager(phone, phone)
+                outcome = "opened"
+            except Exception as e:
+                outcome = "refused (%s)" % type(e).__name__
+        finally:
+            holder.rollback()
+            holder.close()
+        try:
+            if opened is not None:
+                opened._store.identityKeyStore.dbConn.close()
+        except Exception:
+            pass
+        files = sorted(os.listdir(os.path.dirname(db)))
+        st = LiteAxolotlStore(db)
+        now = bytes(st.getIdentityKeyPair().getPublicKey().serialize())
+        st.identityKeyStore.dbConn.close()
+        if now != ident0:
+            r.violation("durable:busy-database-replaced", "the profile's store was opened while another connection held the database (%s): afterwards the identity on file is a different one (files: %s)" % (
+                outcome, files), {"outcome": outcome})
+        # (c) a commit that fails because a reader holds the database
+        r.case(("busy-database-commit",))
+        r.cov["traces_validated_against_impl"] += 1
+        st = LiteAxolotlStore(db)
+        reader = sqlite3.connect(db, timeout=0.1)
+        reader.execute("BEGIN")
+        reader.execute("SELECT count(*) FROM prekeys").fetchall()      # holds a shared lock until the transaction ends
+        key = KeyHelper.generatePreKeys(7001, 1)[0]
+        try:
+            st.storePreKey(key.getId(), key)
+            returned = True
+        except Exception:
+            returned = False
+        reader.rollback()
+        reader.close()
+        try:
+            st.identityKeyStore.dbConn.close()      # the process ends here: what was not committed is gone
+        except Exception:
+            pass
+        fresh = sqlite3.connect(db, timeout=5)
+        try:
+            there = fresh.execute("SELECT count(*) FROM prekeys WHERE prekey_id = 7001").fetchone()[0] == 1
+        finally:
+            fresh.close()
+        if returned and not there:
+            r.violation("durable:failed-commit-unreported", "storePreKey returned normally while a reader held the database; a fresh connection does not see the key (the commit failed and nobody was told)", {})
+    finally:
+        roots.close()
+
+
 def run():
     r = core.Run("C13", "model_checking")
     thorough = r.tier == "thorough"
@@ -626,6 +710,7 @@ def run():
         own_identity_first_open(r, work)
         profiles_of_one_number(r)
         after_refused_bundle(r)
+        journal_and_locks(r)
     finally:
         shutil.rmtree(work, ignore_errors=True)
     r.assumptions += core.ENV_ASSUMPTIONS[:1] + [
